@@ -345,6 +345,19 @@ func runC06(em *vEmitter, r *vRng) {
 				do(mgmt[r.intn(len(mgmt))], c06Body{session: tokens[cred], username: tgt, password: "pwx", admin: r.intn(2) == 0}, "valid")
 			}
 		}
+		// a token names the user's CURRENT admin status: an administrator logs in, is demoted by another
+		// administrator, logs in again at once (and the other way round for an ordinary user)
+		do("authenticate", c06Body{username: "carol", password: x.pw["carol"]}, "valid")
+		do("set-admin", c06Body{session: tokens["admin"], username: "carol", admin: false}, "valid")
+		_, relogin := x.request("authenticate", c06Body{username: "carol", password: x.pw["carol"]}, "valid")
+		do("list", c06Body{session: relogin}, "valid")
+		do("set-admin", c06Body{session: relogin, username: "carol", admin: true}, "valid")
+		do("authenticate", c06Body{username: "bob", password: x.pw["bob"]}, "valid")
+		do("set-admin", c06Body{session: tokens["admin"], username: "bob", admin: true}, "valid")
+		_, relogin2 := x.request("authenticate", c06Body{username: "bob", password: x.pw["bob"]}, "valid")
+		do("list", c06Body{session: relogin2}, "valid")
+		do("set-admin", c06Body{session: tokens["admin"], username: "bob", admin: false}, "valid")
+		do("set-admin", c06Body{session: tokens["admin"], username: "carol", admin: true}, "valid")
 		// a request that carries no credential key at all, right after an accepted one of the same kind
 		// (state kept between requests - pooled or cached request objects - must not lend it a credential)
 		for _, ep := range []string{"update", "add", "remove", "set-admin", "list", "list-full"} {
